@@ -90,7 +90,7 @@ trait Sut {
     fn cancel_resp(&mut self, c: &str, ok: bool, variant: u64);
     /// Several reports delivered by ONE full account snapshot (all ids live on one exchange).
     /// `false` when this entry-point family has no such call.
-    fn snapshot_batch(&mut self, _items: Vec<(String, OrderState<u64x, u64x>, i64, i64)>) -> bool {
+    fn snapshot_batch(&mut self, _items: Vec<(String, OrderState<u64x, u64x>, i64, i64)>, _variant: u64) -> bool {
         false
     }
     fn set(&mut self, c: &str, st: &Value);
@@ -190,7 +190,7 @@ impl Sut for DirectSut {
 
 // ---------------------------------------------------------------------------------------------
 // mode `engine`: EngineState::update_from_account + InFlightRequestRecorder for EngineState,
-// c1,c2 live on instrument 0 (exchange 0), c3 on instrument 2 (exchange 1)
+// c1 lives on instrument 0 and c2 on instrument 1 (both exchange 0), c3 on instrument 2 (exchange 1)
 // ---------------------------------------------------------------------------------------------
 struct EngineSut {
     state: world::State,
@@ -198,7 +198,8 @@ struct EngineSut {
 
 fn home(c: &str) -> (ExchangeIndex, InstrumentIndex) {
     match c {
-        "c1" | "c2" => (ExchangeIndex(0), InstrumentIndex(0)),
+        "c1" => (ExchangeIndex(0), InstrumentIndex(0)),
+        "c2" => (ExchangeIndex(0), InstrumentIndex(1)),
         _ => (ExchangeIndex(1), InstrumentIndex(2)),
     }
 }
@@ -217,6 +218,25 @@ fn reindex(state: OrderState<u64, u64>) -> OrderState<AssetIndex, InstrumentInde
             InactiveOrderState::OpenFailed(_) => InactiveOrderState::OpenFailed(order_err(1)),
         }),
     }
+}
+
+/// A full account snapshot lists every instrument of the exchange, most of them without any order
+/// report: entries without reports are put in front of, between and behind the ones that carry some.
+fn with_empty_instruments(
+    exchange: ExchangeIndex,
+    mut instruments: Vec<InstrumentAccountSnapshot<ExchangeIndex, AssetIndex, InstrumentIndex>>,
+    variant: u64,
+) -> Vec<InstrumentAccountSnapshot<ExchangeIndex, AssetIndex, InstrumentIndex>> {
+    let all: [usize; 2] = if exchange == ExchangeIndex(0) { [0, 1] } else { [2, 3] };
+    let mut at = variant as usize;
+    for i in all {
+        if variant % 5 != 4 && !instruments.iter().any(|s| s.instrument == InstrumentIndex(i)) {
+            let pos = at % (instruments.len() + 1);
+            instruments.insert(pos, InstrumentAccountSnapshot { instrument: InstrumentIndex(i), orders: vec![] });
+            at /= 2;
+        }
+    }
+    instruments
 }
 
 impl Sut for EngineSut {
@@ -242,12 +262,12 @@ impl Sut for EngineSut {
             AccountEventKind::Snapshot(AccountSnapshot {
                 exchange,
                 balances: vec![],
-                instruments: vec![InstrumentAccountSnapshot { instrument, orders: vec![order] }],
+                instruments: with_empty_instruments(exchange, vec![InstrumentAccountSnapshot { instrument, orders: vec![order] }], variant / 2),
             })
         };
         let _ = self.state.update_from_account(&AccountEvent { exchange, kind });
     }
-    fn snapshot_batch(&mut self, items: Vec<(String, OrderState<u64, u64>, i64, i64)>) -> bool {
+    fn snapshot_batch(&mut self, items: Vec<(String, OrderState<u64, u64>, i64, i64)>, variant: u64) -> bool {
         let (exchange, _) = home(&items[0].0);
         // one InstrumentAccountSnapshot per instrument, reports in the delivered sequence
         let mut instruments: Vec<InstrumentAccountSnapshot<ExchangeIndex, AssetIndex, InstrumentIndex>> = vec![];
@@ -260,6 +280,7 @@ impl Sut for EngineSut {
                 None => instruments.push(InstrumentAccountSnapshot { instrument, orders: vec![order] }),
             }
         }
+        let instruments = with_empty_instruments(exchange, instruments, variant);
         let kind = AccountEventKind::Snapshot(AccountSnapshot { exchange, balances: vec![], instruments });
         let _ = self.state.update_from_account(&AccountEvent { exchange, kind });
         true
@@ -358,7 +379,7 @@ fn log_batch(out: &mut Out, sut: &mut dyn Sut, evs: &[Value], variant: u64) {
         .map(|(n, e)| (s(e, "c").to_string(), report_state(e, variant + n as u64), i(e, "q"), i(e, "s")))
         .collect::<Vec<_>>();
     let r = catch(|| {
-        let done = sut.snapshot_batch(items);
+        let done = sut.snapshot_batch(items, variant);
         assert!(done, "batch on a family without account snapshots");
     });
     let post = match r {
